@@ -610,8 +610,17 @@ def parse_equation(equation: str) -> List[Symbol]:
     template = re.sub(r'\s+\)', ')', template)  # Remove space before closing brackets
     # fmt: on
 
-    equation = template.format(*[str(t) for t in terms])
-    code = template.format(*[t.code for t in terms])
+    try:
+        standardised = template.format(*[str(t) for t in terms])
+        code = template.format(*[t.code for t in terms])
+    except (AttributeError, IndexError, KeyError, TypeError, ValueError) as e:
+        # Stray or malformed braces (outside `{parameter}` terms) break the
+        # templating above: report them as a parsing error
+        raise ParserError(
+            f"Found invalid use of braces ('{{', '}}') in equation: {equation}"
+        ) from e
+
+    equation = standardised
 
     # `symbols` stores the final symbols and is successively updated in the
     # loop below
